@@ -97,6 +97,17 @@ class Catalogue:
             text = _read(os.path.join(PHQ, "ConstitutiveModel.hpp"))
             self.model_types = _enum(text, "Type")
             self.model_literals = [l for l in _literals(text)]
+        # a tree whose spelling tables are no longer written as string literals next to the enumeration (generated or
+        # registered at run time) still gets probed: with the enumerators' own names, plain and spaced
+        def _fallback(enums):
+            return list(dict.fromkeys(list(enums) + [re.sub(r"(?<!^)(?=[A-Z])", " ", e) for e in enums]))
+        for d in self.units.values():
+            if not d["literals"]:
+                d["literals"] = _fallback(d["enumerators"])
+        if not self.us_literals:
+            self.us_literals = _fallback(self.unit_systems)
+        if self.model_types and not self.model_literals:
+            self.model_literals = _fallback(self.model_types)
         mdir = os.path.join(PHQ, "ConstitutiveModel")
         if os.path.isdir(mdir):
             self.models = sorted(f[:-4] for f in os.listdir(mdir) if f.endswith(".hpp"))
